@@ -790,6 +790,11 @@ func (s *State) applyFunction(name string, fn object.Object, args []object.Objec
 		log.Debugf("Cache miss for %s %v, not caching error result", function.CacheKey, args)
 		return res
 	}
+	// Nor a function created by this call (a closure over this call's variables, each call makes its own).
+	if object.HoldsFunction(res) {
+		log.Debugf("Cache miss for %s %v, not caching function result", function.CacheKey, args)
+		return res
+	}
 	s.cache.Set(function.CacheKey, args, res, output)
 	log.Debugf("Cache miss for %s %v", function.CacheKey, args)
 	return res
